@@ -1,17 +1,908 @@
 package props
 
-// C04 store-fault engine (see c04 files). Placeholder types until it is built.
+import (
+	"encoding/hex"
+	"encoding/json"
+	"fmt"
+	"hash/fnv"
+	"os"
+	"reflect"
+	"runtime"
+	"runtime/metrics"
+	"strings"
+
+	"github.com/philpearl/plenc/plenccodec"
+	"github.com/philpearl/plenc/plenccore"
+
+	"verifsim/engine"
+	"verifsim/world"
+)
+
+// C04: decoding damaged bytes is total. The simulated system is a record
+// store between a writer and readers; the store damages records the way disks
+// and wires do (torn / short writes, bit rot, garbage runs, misdirected and
+// stale reads, dropped and duplicated blocks) and hands them to readers:
+// Unmarshal into the writer's type, into an older / newer / unrelated type, and
+// Descriptor-driven decoding to JSON.
+
+// StoreCase is one damaged record handed to one reader: the replay unit.
+type StoreCase struct {
+	Type     string        `json:"type"`   // writer's type
+	Reader   string        `json:"reader"` // reader's type (Unmarshal target or Descriptor source)
+	Mode     string        `json:"mode"`   // "unmarshal" | "descriptor"
+	Cfg      world.InstCfg `json:"cfg"`
+	Fault    string        `json:"fault"`        // description of the injected fault
+	Input    string        `json:"input_hex"`    // the damaged record
+	Prev     string        `json:"prev_hex"`     // what the buffer held before (stale tail), if any
+	Present  string        `json:"presentation"` // exact | stale | ff
+	Original string        `json:"original_hex,omitempty"`
+	// Warmup > 0: before the case, this many records with distinct interned
+	// strings are decoded through the same instance (the history that the
+	// allocation of the case depends on).
+	Warmup int `json:"warmup_distinct_strings,omitempty"`
+	// History: the store-simulator records that were run through the same
+	// long-lived instances before (and including) this case. Replaying them
+	// re-creates the state the finding depends on.
+	History *StoreHistory `json:"history,omitempty"`
+}
+
+type StoreHistory struct {
+	Seed     uint64 `json:"seed"`
+	Thorough bool   `json:"thorough"`
+	Records  []int  `json:"record_indexes"`
+}
 
 type StoreStats struct {
-	Decodes         int `json:"decodes"`
-	DistinctDamaged int `json:"distinct_damaged"`
+	Records         int            `json:"records"`
+	Decodes         int            `json:"decodes"`
+	DistinctDamaged int            `json:"distinct_damaged"`
+	ByFault         map[string]int `json:"by_fault"`
+	ByMode          map[string]int `json:"by_mode"`
+	Errors          int            `json:"decodes_returning_error"`
+	Successes       int            `json:"decodes_returning_value"`
+	HealthChecks    int            `json:"health_checks"`
+	ExactAllocMeas  int            `json:"exact_alloc_measurements"`
+	AllocSuspects   int            `json:"alloc_suspects_remeasured"`
+	MaxSteps        int            `json:"max_steps_in_one_decode"`
+	Types           map[string]int `json:"records_by_type"`
+	ShortBlocks     int            `json:"unrelated_short_blocks"`
 }
 
 func (s *StoreStats) Merge(o *StoreStats) {
+	s.Records += o.Records
 	s.Decodes += o.Decodes
 	s.DistinctDamaged += o.DistinctDamaged
+	s.Errors += o.Errors
+	s.Successes += o.Successes
+	s.HealthChecks += o.HealthChecks
+	s.ExactAllocMeas += o.ExactAllocMeas
+	s.AllocSuspects += o.AllocSuspects
+	s.ShortBlocks += o.ShortBlocks
+	if o.MaxSteps > s.MaxSteps {
+		s.MaxSteps = o.MaxSteps
+	}
+	if s.ByFault == nil {
+		s.ByFault, s.ByMode, s.Types = map[string]int{}, map[string]int{}, map[string]int{}
+	}
+	for k, v := range o.ByFault {
+		s.ByFault[k] += v
+	}
+	for k, v := range o.ByMode {
+		s.ByMode[k] += v
+	}
+	for k, v := range o.Types {
+		s.Types[k] += v
+	}
 }
 
-type StoreCase struct{}
+func NewStoreStats() *StoreStats {
+	return &StoreStats{ByFault: map[string]int{}, ByMode: map[string]int{}, Types: map[string]int{}}
+}
 
-func ReplayStore(rf *ReplayFile) int { return 2 }
+// ---------------------------------------------------------------------------
+// step budget: the yield hook counts; beyond the budget it panics out of the
+// decode, which turns an endless loop into a deterministic violation.
+
+type stepBudgetExceeded struct{ steps int }
+
+var (
+	stepCount  int
+	stepBudget int
+	stepSite   string
+)
+
+// buildSites are the yield points of codec construction; they are not decode
+// steps (a first use after the instance was replaced builds codecs).
+var notDecodeSteps = map[string]bool{"reg.load": true, "reg.store": true, "reg.storeOrSwap": true, "struct.field": true,
+	"struct.fieldDone": true, "struct.index": true, "struct.done": true, "map.build": true, "struct.append": true}
+
+func stepHook(site string) {
+	if notDecodeSteps[site] {
+		return
+	}
+	stepCount++
+	if stepCount > stepBudget && stepBudget > 0 {
+		stepSite = site
+		stepBudget = 0
+		panic(stepBudgetExceeded{stepCount})
+	}
+}
+
+// InstallStoreHooks replaces the scheduler's hooks by the step counter.
+func InstallStoreHooks() {
+	plenccore.VerifHooks.Yield = stepHook
+	plenccodec.VerifHooks.PoolGet = nil
+	plenccodec.VerifHooks.PoolPut = nil
+}
+
+// ---------------------------------------------------------------------------
+
+var allocSample = []metrics.Sample{{Name: "/gc/heap/allocs:bytes"}}
+
+func allocsNow() uint64 {
+	metrics.Read(allocSample)
+	return allocSample[0].Value.Uint64()
+}
+
+func exactAllocs() uint64 {
+	var ms runtime.MemStats
+	runtime.ReadMemStats(&ms)
+	return ms.TotalAlloc
+}
+
+// KFor computes the per-input-byte allocation allowance of a target type: 16
+// times the largest slice element / map entry / pointee reachable in it, plus
+// 64. It depends on the type only.
+func KFor(t reflect.Type) int {
+	seen := map[reflect.Type]bool{}
+	m := maxElem(t, seen)
+	return 64 + 16*m
+}
+
+func maxElem(t reflect.Type, seen map[reflect.Type]bool) int {
+	if seen[t] {
+		return 0
+	}
+	seen[t] = true
+	m := 0
+	up := func(x int) {
+		if x > m {
+			m = x
+		}
+	}
+	switch t.Kind() {
+	case reflect.Ptr:
+		up(int(t.Elem().Size()))
+		up(maxElem(t.Elem(), seen))
+	case reflect.Slice:
+		up(int(t.Elem().Size()))
+		up(maxElem(t.Elem(), seen))
+	case reflect.Map:
+		up(2 * int(t.Key().Size()+t.Elem().Size()+16))
+		up(maxElem(t.Key(), seen))
+		up(maxElem(t.Elem(), seen))
+	case reflect.Struct:
+		for i := 0; i < t.NumField(); i++ {
+			up(maxElem(t.Field(i).Type, seen))
+		}
+	case reflect.Interface:
+		up(64) // JSON-any values
+	}
+	return m
+}
+
+const allocBase = 64 << 10
+
+// ---------------------------------------------------------------------------
+
+type storeReader struct {
+	stateful bool // decodes through this reader change instance state (intern tables): measure every decode exactly
+	mode     string
+	ti       *world.TypeInfo
+	k        int
+	desc     *plenccodec.Descriptor
+	jout     plenccodec.JSONOutput
+	descOK   bool
+}
+
+// StoreSim is the per-worker state of the store simulator.
+type StoreSim struct {
+	St    *StoreStats
+	insts map[world.InstCfg]world.API
+	seen  map[uint64]bool
+	// Soft collects history-dependent allocation findings: they are reported
+	// once per reader type and the enumeration carries on.
+	Soft          []SoftViolation
+	softSeen      map[string]bool
+	records       int
+	seed          uint64
+	thorough      bool
+	sinceRotation []int
+	CaseFile      string // if set, every case is written here before it is decoded (confirm mode)
+	decodeNo      int
+	curCase       *StoreCase
+}
+
+// LastCase returns the most recent case handed to a reader.
+func (s *StoreSim) LastCase() *StoreCase { return s.curCase }
+
+func NewStoreSim() *StoreSim {
+	InstallStoreHooks()
+	return &StoreSim{St: NewStoreStats(), insts: map[world.InstCfg]world.API{}, seen: map[uint64]bool{}}
+}
+
+func (s *StoreSim) inst(cfg world.InstCfg) world.API {
+	p := s.insts[cfg]
+	if p == nil {
+		p = world.NewInstance(cfg)
+		s.insts[cfg] = p
+	}
+	return p
+}
+
+type SoftViolation struct {
+	V *Violation
+	C *StoreCase
+}
+
+type decodeResult struct {
+	err      string
+	panicked string
+	site     string
+	steps    int
+	alloc    uint64
+	val      reflect.Value
+	json     string
+	hang     bool
+}
+
+// present builds the buffer a reader sees.
+func present(input, prev []byte, how string) []byte {
+	switch how {
+	case "exact":
+		return append(make([]byte, 0, len(input)), input...)
+	case "stale":
+		n := len(input) + 64
+		if len(prev) > n {
+			n = len(prev)
+		}
+		b := make([]byte, n)
+		for i := range b {
+			b[i] = 0x5A
+		}
+		copy(b, prev)
+		copy(b, input)
+		// what lies beyond the record is the rest of the previous one
+		return b[:len(input)]
+	default: // ff
+		b := make([]byte, len(input)+64)
+		for i := range b {
+			b[i] = 0xFF
+		}
+		copy(b, input)
+		return b[:len(input)]
+	}
+}
+
+func (s *StoreSim) decodeOnce(p world.API, rd *storeReader, buf []byte, exact bool) (res decodeResult) {
+	stepCount = 0
+	stepBudget = 64 + 16*len(buf)
+	var a0 uint64
+	if exact {
+		a0 = exactAllocs()
+	} else {
+		a0 = allocsNow()
+	}
+	func() {
+		defer func() {
+			if r := recover(); r != nil {
+				if _, ok := r.(stepBudgetExceeded); ok {
+					res.hang = true
+					res.site = stepSite
+					return
+				}
+				st := stackString()
+				res.panicked = fmt.Sprint(r)
+				res.site = panicSite(st)
+			}
+		}()
+		if rd.mode == "descriptor" {
+			rd.jout.Reset()
+			err := rd.desc.Read(&rd.jout, buf)
+			if err != nil {
+				res.err = err.Error()
+			} else {
+				res.json = string(rd.jout.Done())
+			}
+			return
+		}
+		out := reflect.New(rd.ti.T)
+		err := p.Unmarshal(buf, out.Interface())
+		if err != nil {
+			res.err = err.Error()
+		}
+		res.val = out.Elem()
+	}()
+	stepBudget = 0
+	res.steps = stepCount
+	if exact {
+		res.alloc = exactAllocs() - a0
+	} else {
+		res.alloc = allocsNow() - a0
+	}
+	return res
+}
+
+func violStore(kind, site, msg string, c *StoreCase) *Violation {
+	return &Violation{Prop: "C04", Kind: kind, Task: -1, OpIdx: -1, OpKind: c.Mode, Type: c.Reader, Site: site, Msg: msg}
+}
+
+// RunCase hands one damaged record to one reader under the three
+// presentations and checks the invariants. It returns the first violation.
+func (s *StoreSim) RunCase(c *StoreCase, input, prev []byte, rd *storeReader) (*Violation, string) {
+	p := s.inst(c.Cfg)
+	h := fnv.New64a()
+	h.Write(input)
+	h.Write([]byte(c.Reader + c.Mode))
+	if k := h.Sum64(); !s.seen[k] {
+		s.seen[k] = true
+		s.St.DistinctDamaged++
+	}
+	bound := uint64(allocBase + rd.k*len(input))
+	var first decodeResult
+	for pi, how := range []string{"exact", "stale", "ff"} {
+		if rd.mode == "descriptor" && how == "stale" {
+			continue
+		}
+		c.Present = how
+		s.curCase = c
+		if s.CaseFile != "" {
+			b, _ := json.Marshal(c)
+			os.WriteFile(s.CaseFile, b, 0o644)
+		}
+		buf := present(input, prev, how)
+		s.decodeNo++
+		exact := s.decodeNo%16 == 0 || rd.stateful
+		res := s.decodeOnce(p, rd, buf, exact)
+		s.St.Decodes++
+		s.St.ByMode[c.Mode]++
+		if exact {
+			s.St.ExactAllocMeas++
+		}
+		if res.steps > s.St.MaxSteps {
+			s.St.MaxSteps = res.steps
+		}
+		if res.hang {
+			return violStore("hang", res.site, fmt.Sprintf("decode of a %d-byte input did not finish within %d steps (loop at %s)", len(input), 64+16*len(input), res.site), c), how
+		}
+		if res.panicked != "" {
+			return violStore("panic", res.site, fmt.Sprintf("panic: %s at %s", res.panicked, res.site), c), how
+		}
+		if string(buf) != string(input) {
+			return violStore("alias", "", "the decoder modified its input", c), how
+		}
+		if res.alloc > bound {
+			// suspect: measure again exactly
+			s.St.AllocSuspects++
+			res2 := res
+			if !exact {
+				res2 = s.decodeOnce(p, rd, present(input, prev, how), true)
+			}
+			if res2.alloc > bound && res2.panicked == "" && !res2.hang {
+				// does the excess come from the input, or from what this
+				// long-lived instance decoded before?
+				fresh := s.decodeOnce(world.NewInstance(c.Cfg), rd, present(input, prev, how), true)
+				InstallStoreHooks()
+				if fresh.alloc <= bound {
+					if s.softSeen == nil {
+						s.softSeen = map[string]bool{}
+					}
+					if !s.softSeen[c.Reader] {
+						s.softSeen[c.Reader] = true
+						cc := *c
+						cc.Present = how
+						if cc.Warmup == 0 {
+							cc.History = &StoreHistory{Seed: s.seed, Thorough: s.thorough, Records: append([]int(nil), s.sinceRotation...)}
+						}
+						s.Soft = append(s.Soft, SoftViolation{softViol(len(input), res2.alloc, bound, fresh.alloc, rd, &cc), &cc})
+					}
+				} else {
+					return violStore("blowup", "", fmt.Sprintf("decoding a %d-byte input allocated %d bytes (allowance %d = 64KiB + %d per input byte)", len(input), res2.alloc, bound, rd.k), c), how
+				}
+			}
+		}
+		if res.err != "" {
+			s.St.Errors++
+		} else {
+			s.St.Successes++
+		}
+		if pi == 0 {
+			first = res
+			continue
+		}
+		// reads nothing outside the input: what lies beyond len must not matter
+		if (res.err == "") != (first.err == "") {
+			return violStore("overread", "", fmt.Sprintf("result depends on bytes beyond the input: with exact capacity error=%q, with spare capacity (%s) error=%q", first.err, how, res.err), c), how
+		}
+		if res.err == "" {
+			if rd.mode == "descriptor" {
+				if res.json != first.json {
+					return violStore("overread", "", "descriptor output depends on bytes beyond the input", c), how
+				}
+			} else if ok, path := world.Equal(res.val, first.val); !ok {
+				return violStore("overread", "", "decoded value depends on bytes beyond the input, at "+path, c), how
+			}
+		}
+	}
+	return nil, ""
+}
+
+func softViol(n int, alloc, bound, fresh uint64, rd *storeReader, c *StoreCase) *Violation {
+	return violStore("blowup-history", "", fmt.Sprintf("decoding a %d-byte input allocated %d bytes on the long-lived instance (allowance %d) but %d on a brand-new one: allocation grows with what the instance decoded before%s", n, alloc, bound, fresh, internNote(rd.ti.T)), c)
+}
+
+// internNote names the one mechanism in plenc whose allocation depends on
+// history, when the reader's type uses it.
+func internNote(t reflect.Type) string {
+	if hasIntern(t, map[reflect.Type]bool{}) {
+		return " (the type has interned string fields: the copy-on-write intern table is copied in full for every new string)"
+	}
+	return ""
+}
+
+func hasIntern(t reflect.Type, seen map[reflect.Type]bool) bool {
+	if seen[t] {
+		return false
+	}
+	seen[t] = true
+	switch t.Kind() {
+	case reflect.Ptr, reflect.Slice:
+		return hasIntern(t.Elem(), seen)
+	case reflect.Map:
+		return hasIntern(t.Key(), seen) || hasIntern(t.Elem(), seen)
+	case reflect.Struct:
+		for i := 0; i < t.NumField(); i++ {
+			if strings.HasSuffix(t.Field(i).Tag.Get("plenc"), ",intern") || hasIntern(t.Field(i).Type, seen) {
+				return true
+			}
+		}
+	}
+	return false
+}
+
+// HistoryProbe demonstrates deterministically the one history-dependent
+// allocation: n records with distinct interned strings are decoded through a
+// long-lived instance, then one more small record.
+func (s *StoreSim) HistoryProbe(idx int) (*Violation, *StoreCase) {
+	cfg := world.Configs[idx%len(world.Configs)]
+	c := &StoreCase{Type: "Sym", Reader: "Sym", Mode: "unmarshal", Cfg: cfg, Fault: "none: valid record after a history of distinct interned strings", Warmup: 1500 + 500*(idx/len(world.Configs))}
+	rec, _, _ := soloMarshal(cfg, &world.Sym{A: "one-more-new-string"})
+	c.Input = hex.EncodeToString(rec)
+	v := s.runWithWarmup(c)
+	if v == nil && len(s.Soft) > 0 {
+		sv := s.Soft[len(s.Soft)-1]
+		s.Soft = s.Soft[:len(s.Soft)-1]
+		delete(s.softSeen, c.Reader)
+		return sv.V, c
+	}
+	return v, c
+}
+
+func (s *StoreSim) runWithWarmup(c *StoreCase) *Violation {
+	p := s.inst(c.Cfg)
+	for i := 0; i < c.Warmup; i++ {
+		b, _, _ := soloMarshal(c.Cfg, &world.Sym{A: fmt.Sprintf("warm-%d", i)})
+		var out world.Sym
+		if err := p.Unmarshal(b, &out); err != nil {
+			panic(HarnessError{"warm-up decode failed: " + err.Error()})
+		}
+	}
+	InstallStoreHooks()
+	in, _ := hex.DecodeString(c.Input)
+	prev, _ := hex.DecodeString(c.Prev)
+	var rd *storeReader
+	for _, r := range s.readersFor(c.Reader, c.Cfg) {
+		if r.mode == c.Mode && r.ti.Name == c.Reader {
+			rd = r
+		}
+	}
+	if rd == nil {
+		panic(HarnessError{"no reader for stored case"})
+	}
+	cc := *c
+	v, _ := s.RunCase(&cc, in, prev, rd)
+	return v
+}
+
+// ---------------------------------------------------------------------------
+// fault enumeration
+
+type fault struct {
+	kind string
+	desc string
+	data []byte
+}
+
+var maxVarint = []byte{0xFF, 0xFF, 0xFF, 0xFF, 0xFF, 0xFF, 0xFF, 0xFF, 0xFF, 0x01}
+
+// EnumerateFaults lists every single-fault damage of record a (b is a second
+// record of the same type, for misdirected reads). thorough adds all splice
+// offsets and more block operations.
+func EnumerateFaults(a, b []byte, thorough bool, emit func(f fault) bool) {
+	n := len(a)
+	cp := func() []byte { return append([]byte(nil), a...) }
+	// torn / short write: every truncation point
+	for k := 0; k < n; k++ {
+		if !emit(fault{"truncate", fmt.Sprintf("torn write: cut at byte %d of %d", k, n), append([]byte(nil), a[:k]...)}) {
+			return
+		}
+	}
+	// bit rot: every single bit
+	for i := 0; i < n; i++ {
+		for bit := 0; bit < 8; bit++ {
+			d := cp()
+			d[i] ^= 1 << uint(bit)
+			if !emit(fault{"bitflip", fmt.Sprintf("bit rot: bit %d of byte %d flipped", bit, i), d}) {
+				return
+			}
+		}
+	}
+	// byte forced
+	for i := 0; i < n; i++ {
+		for _, v := range []byte{0x00, 0x7F, 0x80, 0xFF} {
+			if a[i] == v {
+				continue
+			}
+			d := cp()
+			d[i] = v
+			if !emit(fault{"byteforce", fmt.Sprintf("byte %d forced to %02X", i, v), d}) {
+				return
+			}
+		}
+	}
+	// garbage runs inserted / overwriting
+	for i := 0; i <= n; i++ {
+		d := append(append(append([]byte(nil), a[:i]...), maxVarint...), a[i:]...)
+		if !emit(fault{"insert_maxvarint", fmt.Sprintf("maximal varint inserted at %d", i), d}) {
+			return
+		}
+		d = append(append(append([]byte(nil), a[:i]...), make([]byte, 8)...), a[i:]...)
+		if !emit(fault{"insert_zeros", fmt.Sprintf("8 zero bytes inserted at %d", i), d}) {
+			return
+		}
+		if i < n {
+			d = cp()
+			copy(d[i:], maxVarint)
+			if !emit(fault{"overwrite_maxvarint", fmt.Sprintf("maximal varint written over offset %d", i), d}) {
+				return
+			}
+		}
+	}
+	// dropped and duplicated blocks
+	sizes := []int{1, 2, 4}
+	if thorough {
+		sizes = []int{1, 2, 3, 4, 8, 16}
+	}
+	for _, k := range sizes {
+		for i := 0; i+k <= n; i++ {
+			d := append(append([]byte(nil), a[:i]...), a[i+k:]...)
+			if !emit(fault{"drop_block", fmt.Sprintf("%d bytes dropped at %d", k, i), d}) {
+				return
+			}
+			d = append(append(append([]byte(nil), a[:i+k]...), a[i:i+k]...), a[i+k:]...)
+			if !emit(fault{"dup_block", fmt.Sprintf("%d bytes at %d written twice", k, i), d}) {
+				return
+			}
+		}
+	}
+	// misdirected / stale read: prefix of a + suffix of b
+	if len(b) > 0 {
+		for i := 0; i <= n; i++ {
+			js := []int{i}
+			if thorough {
+				js = js[:0]
+				for j := 0; j <= len(b); j++ {
+					js = append(js, j)
+				}
+			} else if i <= len(b) {
+				js = append(js, len(b)-((n-i)%(len(b)+1)))
+			}
+			for _, j := range js {
+				if j < 0 || j > len(b) {
+					continue
+				}
+				d := append(append([]byte(nil), a[:i]...), b[j:]...)
+				if !emit(fault{"splice", fmt.Sprintf("misdirected read: first %d bytes of this record, then the other record from %d", i, j), d}) {
+					return
+				}
+			}
+		}
+	}
+}
+
+// ---------------------------------------------------------------------------
+// records
+
+// storeTypes are the writer types; readers are the same type, version
+// siblings and a few unrelated types (misdirected read).
+func storeTypes(cfg world.InstCfg) []string {
+	var out []string
+	for _, ti := range world.TypeList {
+		if !world.TopOK(&world.TypeInfo{T: ti.T, Top: true, Bad: ti.Bad}, cfg) {
+			continue
+		}
+		out = append(out, ti.Name)
+	}
+	return out
+}
+
+var versionSiblings = map[string][]string{
+	"V0": {"V1", "V2"}, "V1": {"V0", "V2"}, "V2": {"V0", "V1", "Wide"},
+	"Wide": {"V2", "Maps"}, "Inner": {"Small", "KeyS"}, "Sym": {"SymTwin", "Inner"}, "SymTwin": {"Sym"},
+	"Maps": {"Wide", "JDoc"}, "JDoc": {"Maps", "V1"}, "Node": {"Tree", "RA"}, "Tree": {"Node"},
+	"MTarget": {"Wide"}, "RA": {"RB"}, "RB": {"RC"}, "RC": {"RA"}, "Small": {"Inner", "KeyS"},
+	"MapKS": {"MapKV", "MapSI"}, "MapKV": {"MapKS"}, "MapSI": {"MapKS", "[]string"},
+	"[]string": {"[][]byte", "[]Inner"}, "[]int": {"[]float64", "MyBytes"}, "[]float64": {"[]int"},
+	"[]Inner": {"[]string", "[]*Node"}, "[]*Node": {"[]Inner"}, "RootA": {"RootB"}, "RootB": {"RootC"}, "RootC": {"RootA"},
+}
+
+func (s *StoreSim) readersFor(tn string, cfg world.InstCfg) []*storeReader {
+	var out []*storeReader
+	add := func(name string) {
+		ti := world.Types[name]
+		if ti == nil || ti.Bad {
+			return
+		}
+		if cfg.ProtoArrays && !world.TopOK(&world.TypeInfo{T: ti.T, Top: true}, cfg) {
+			return
+		}
+		out = append(out, &storeReader{mode: "unmarshal", ti: ti, k: KFor(ti.T), stateful: hasIntern(ti.T, map[reflect.Type]bool{})})
+		if !world.IsRecursive(ti.T) {
+			c, err := s.inst(cfg).CodecForType(ti.T)
+			if err == nil {
+				d := c.Descriptor()
+				out = append(out, &storeReader{mode: "descriptor", ti: ti, k: KFor(ti.T) + 256, desc: &d})
+			}
+		}
+	}
+	add(tn)
+	for _, sib := range versionSiblings[tn] {
+		add(sib)
+	}
+	return out
+}
+
+// StoreRecord runs the full single-fault enumeration for record index idx.
+func (s *StoreSim) StoreRecord(seed uint64, idx int, thorough bool) (*Violation, *StoreCase) {
+	s.records++
+	s.seed, s.thorough = seed, thorough
+	if s.records%40 == 0 {
+		// the long-lived instances are replaced now and then so that the cost
+		// of the (known) intern-table growth stays bounded
+		s.insts = map[world.InstCfg]world.API{}
+		s.sinceRotation = nil
+	}
+	s.sinceRotation = append(s.sinceRotation, idx)
+	r := engine.PRNG{S: engine.Mix(seed, 0xC04, uint64(idx))}
+	cfg := world.Configs[idx%len(world.Configs)]
+	types := storeTypes(cfg)
+	tn := types[(idx/len(world.Configs))%len(types)]
+	ti := world.Types[tn]
+	maxLen := 160
+	if thorough {
+		maxLen = 700
+	}
+	var rec, rec2 []byte
+	for try := 0; try < 20; try++ {
+		size := 2 + r.Intn(14)
+		if thorough {
+			size = 2 + r.Intn(40)
+		}
+		v := world.Gen(ti.T, &r, world.GenOpts{Size: size})
+		b, errs, pan := soloMarshal(cfg, v.Addr().Interface())
+		if pan != "" || errs != "" || len(b) == 0 || len(b) > maxLen {
+			continue
+		}
+		cb, err := world.Canon(ti.T, b)
+		if err != nil {
+			continue
+		}
+		if rec == nil {
+			rec = cb
+		} else {
+			rec2 = cb
+			break
+		}
+	}
+	if rec == nil {
+		return nil, nil
+	}
+	s.St.Records++
+	s.St.Types[tn]++
+	readers := s.readersFor(tn, cfg)
+	var viol *Violation
+	var vcase *StoreCase
+	prev := rec2
+	if prev == nil {
+		prev = rec
+	}
+	EnumerateFaults(rec, rec2, thorough, func(f fault) bool {
+		s.St.ByFault[f.kind]++
+		for _, rd := range readers {
+			c := &StoreCase{Type: tn, Reader: rd.ti.Name, Mode: rd.mode, Cfg: cfg, Fault: f.desc, Input: hex.EncodeToString(f.data), Prev: hex.EncodeToString(prev), Original: hex.EncodeToString(rec)}
+			if v, _ := s.RunCase(c, f.data, prev, rd); v != nil {
+				viol, vcase = v, c
+				return false
+			}
+		}
+		return true
+	})
+	if viol != nil {
+		return viol, vcase
+	}
+	// the instance must stay healthy: the undamaged records still decode as alone
+	for _, good := range [][]byte{rec, rec2} {
+		if good == nil {
+			continue
+		}
+		s.St.HealthChecks++
+		exp, eerr, epan := soloUnmarshal(cfg, ti.T, good)
+		InstallStoreHooks()
+		if epan != "" {
+			continue
+		}
+		out := reflect.New(ti.T)
+		err := s.inst(cfg).Unmarshal(append([]byte(nil), good...), out.Interface())
+		c := &StoreCase{Type: tn, Reader: tn, Mode: "unmarshal", Cfg: cfg, Fault: "none (health check after a batch of damaged records)", Input: hex.EncodeToString(good), Present: "exact"}
+		if errText(err) != eerr {
+			return violStore("unhealthy", "", fmt.Sprintf("after decoding damaged records the instance decodes a valid record with error %q (alone: %q)", errText(err), eerr), c), c
+		}
+		if ok, path := world.Equal(out.Elem(), exp); !ok && err == nil {
+			return violStore("unhealthy", "", "after decoding damaged records the instance decodes a valid record differently, at "+path, c), c
+		}
+	}
+	return nil, nil
+}
+
+// ShortBlocks feeds unrelated short blocks (every string of length <= 2, and
+// length 3-4 over a boundary alphabet) to one reader type.
+func (s *StoreSim) ShortBlocks(idx int, thorough bool) (*Violation, *StoreCase) {
+	cfg := world.Configs[idx%len(world.Configs)]
+	types := storeTypes(cfg)
+	tn := types[(idx/len(world.Configs))%len(types)]
+	readers := s.readersFor(tn, cfg)[:1]
+	if rs := s.readersFor(tn, cfg); len(rs) > 1 && rs[1].mode == "descriptor" {
+		readers = rs[:2]
+	}
+	alphabet := []byte{0x00, 0x01, 0x02, 0x08, 0x0A, 0x0B, 0x12, 0x1A, 0x1B, 0x7F, 0x80, 0x81, 0xFF}
+	run := func(d []byte) (*Violation, *StoreCase) {
+		s.St.ShortBlocks++
+		s.St.ByFault["short_block"]++
+		for _, rd := range readers {
+			c := &StoreCase{Type: tn, Reader: rd.ti.Name, Mode: rd.mode, Cfg: cfg, Fault: "misdirected read: unrelated short block", Input: hex.EncodeToString(d)}
+			if v, _ := s.RunCase(c, d, nil, rd); v != nil {
+				return v, c
+			}
+		}
+		return nil, nil
+	}
+	if v, c := run(nil); v != nil {
+		return v, c
+	}
+	for a := 0; a < 256; a++ {
+		if v, c := run([]byte{byte(a)}); v != nil {
+			return v, c
+		}
+	}
+	step := 1
+	if !thorough {
+		step = 7 // quick: every 7th two-byte string, offset by the index so that runs differ
+	}
+	for x := idx % step; x < 65536; x += step {
+		if v, c := run([]byte{byte(x >> 8), byte(x)}); v != nil {
+			return v, c
+		}
+	}
+	for _, a := range alphabet {
+		for _, b := range alphabet {
+			for _, c3 := range alphabet {
+				if v, c := run([]byte{a, b, c3}); v != nil {
+					return v, c
+				}
+				if thorough {
+					for _, d4 := range alphabet {
+						if v, c := run([]byte{a, b, c3, d4}); v != nil {
+							return v, c
+						}
+					}
+				}
+			}
+		}
+	}
+	return nil, nil
+}
+
+// ---------------------------------------------------------------------------
+// replay and minimisation
+
+func sigOf(v *Violation) string {
+	msg := v.Msg
+	if i := strings.Index(msg, "[:"); i > 0 {
+		msg = msg[:i]
+	}
+	return v.Kind + "|" + v.Site
+}
+
+// RunStoreCase decodes one stored case on a fresh simulator, after re-creating
+// its history if it has one.
+func RunStoreCase(c *StoreCase) *Violation {
+	s := NewStoreSim()
+	if c.History != nil {
+		for _, idx := range c.History.Records {
+			if v, _ := s.StoreRecord(c.History.Seed, idx, c.History.Thorough); v != nil {
+				return v
+			}
+		}
+		for _, sv := range s.Soft {
+			if sv.C.Reader == c.Reader {
+				return sv.V
+			}
+		}
+		return nil
+	}
+	v := s.runWithWarmup(c)
+	if v == nil && len(s.Soft) > 0 {
+		return s.Soft[0].V
+	}
+	return v
+}
+
+// MinimiseStore delta-debugs the input bytes while the same (kind, site)
+// persists.
+func MinimiseStore(c *StoreCase, v *Violation) (*StoreCase, *Violation, string) {
+	want := sigOf(v)
+	best := *c
+	bestV := v
+	in, _ := hex.DecodeString(c.Input)
+	tries := 0
+	test := func(d []byte) *Violation {
+		tries++
+		cc := best
+		cc.Input = hex.EncodeToString(d)
+		vv := RunStoreCase(&cc)
+		if vv != nil && sigOf(vv) == want {
+			return vv
+		}
+		return nil
+	}
+	for chunk := len(in) / 2; chunk >= 1 && tries < 400; chunk /= 2 {
+		for i := 0; i+chunk <= len(in) && tries < 400; {
+			d := append(append([]byte(nil), in[:i]...), in[i+chunk:]...)
+			if vv := test(d); vv != nil {
+				in = d
+				bestV = vv
+			} else {
+				i += chunk
+			}
+		}
+	}
+	best.Input = hex.EncodeToString(in)
+	return &best, bestV, fmt.Sprintf("input reduced from %d to %d bytes in %d executions", len(c.Input)/2, len(in), tries)
+}
+
+// ReplayStore re-executes a stored case. Crash and hang cases are run in the
+// calling process: the caller (replay.sh / the parent) interprets a crash or a
+// timeout as reproduction.
+func ReplayStore(rf *ReplayFile) int {
+	if rf.Store == nil {
+		fmt.Fprintln(os.Stderr, "replay file has no store case")
+		return 2
+	}
+	v := RunStoreCase(rf.Store)
+	if v == nil {
+		fmt.Println("not reproduced: the decode completed within all bounds")
+		return 0
+	}
+	fmt.Printf("VIOLATION property=C04 replay=%s\n  reproduced: %s\n", "(file)", v.String())
+	return 1
+}
